@@ -16,6 +16,12 @@ pub enum Op {
     U64,
     /// signed coefficient in -2^k..2^k stored as u64
     SCoef { bits: u32 },
+    /// 128-bit unsigned integer (16 bytes LE)
+    U128,
+    /// 32 bytes, reduced into a scalar modulo a ~2^252..2^256 order (decode_reduce)
+    Scalar32,
+    /// N raw bytes
+    Raw(usize),
     /// byte string of variable length (must be last operand), up to max
     VarBytes { max: usize, mq: u64 },
 }
@@ -26,6 +32,9 @@ impl Op {
             Op::Limbs4 { .. } | Op::Bytes32 { .. } => Some(32),
             Op::Ctl | Op::U32 => Some(4),
             Op::U64 | Op::SCoef { .. } => Some(8),
+            Op::U128 => Some(16),
+            Op::Scalar32 => Some(32),
+            Op::Raw(n) => Some(*n),
             Op::VarBytes { .. } => None,
         }
     }
@@ -82,7 +91,7 @@ pub fn specials(op: &Op) -> Vec<Vec<u8>> {
     match op {
         Op::Limbs4 { mq } | Op::Bytes32 { mq } => special_values_255(*mq).iter().map(|x| int_to_le(x, 32)).collect(),
         Op::Ctl => vec![0u32.to_le_bytes().to_vec(), 0xFFFFFFFFu32.to_le_bytes().to_vec()],
-        Op::U32 => [0u32, 1, 2, 15, 16, 17, 31, 32, 0x7FFFFFFF, 0x80000000, 0xFFFFFFFE, 0xFFFFFFFF]
+        Op::U32 => [0u32, 1, 2, 3, 7, 8, 14, 15, 16, 17, 31, 32, 255, 256, 257, 0x10F, 0xFFFF, 0x10000, 0x1000F, 0x7FFFFFFF, 0x80000000, 0x80000003, 0xFFFFFF03, 0xFFFFFFFE, 0xFFFFFFFF]
             .iter().map(|x| x.to_le_bytes().to_vec()).collect(),
         Op::U64 => [0u64, 1, 2, u64::MAX, 1 << 63, (1 << 63) - 1, 1 << 32]
             .iter().map(|x| x.to_le_bytes().to_vec()).collect(),
@@ -91,6 +100,26 @@ pub fn specials(op: &Op) -> Vec<Vec<u8>> {
             [0i64, 1, -1, 2, -2, m, -m, m - 1, -(m - 1), m / 2, -(m / 2)]
                 .iter().map(|x| (*x as u64).to_le_bytes().to_vec()).collect()
         }
+        Op::U128 => {
+            let mut v: Vec<u128> = vec![0, 1, 2, 15, 16, 17, 31, 32, 33, u128::MAX, u128::MAX - 1, 1 << 127, (1 << 127) - 1, (1 << 127) + 1, 1 << 64, (1 << 64) - 1];
+            for d in 0..40u128 { v.push(u128::MAX - d); v.push((1u128 << 127) - 20 + d); }
+            for k in [5u32, 40, 59, 60, 64, 65, 100, 120, 125, 126] { v.push((1u128 << k) - 1); v.push(((1u128 << k) - 1) << (128 - k)); v.push(0x11u128 << (k.min(122))); }
+            v.iter().map(|x| x.to_le_bytes().to_vec()).collect()
+        }
+        Op::Scalar32 => {
+            let mut v: Vec<Vec<u8>> = Vec::new();
+            for b in [0u8, 1, 0x0F, 0x10, 0x11, 0x1F, 0x7F, 0x80, 0xFF] { v.push(vec![b; 32]); }
+            // values near typical group orders and powers of two
+            for k in [251u32, 252, 253, 254, 255] {
+                for d in [-2i64, -1, 0, 1, 2] {
+                    let x = pow2(k) + BigInt::from(d);
+                    if x < pow2(256) { v.push(int_to_le(&x, 32)); }
+                }
+            }
+            for d in 0..8u32 { v.push(int_to_le(&(pow2(256) - 1 - BigInt::from(d)), 32)); let mut w = vec![0u8; 32]; w[0] = d as u8; v.push(w); }
+            v
+        }
+        Op::Raw(n) => vec![vec![0u8; *n], vec![0xFFu8; *n], (0..*n).map(|i| (i * 37 + 11) as u8).collect(), { let mut w = vec![0u8; *n]; if *n > 0 { w[0] = 1; } w }, { let mut w = vec![0xFFu8; *n]; if *n > 0 { w[*n - 1] = 0x7F; } w }],
         Op::VarBytes { max, mq } => {
             let mut v: Vec<Vec<u8>> = Vec::new();
             for n in [0usize, 1, 31, 32, 33, 63, 64, 65, 96, 97] {
@@ -124,12 +153,33 @@ pub fn random(op: &Op, r: &mut Rng) -> Vec<u8> {
             b
         }
         Op::Ctl => if r.below(2) == 0 { 0u32 } else { 0xFFFFFFFFu32 }.to_le_bytes().to_vec(),
-        Op::U32 => (match r.below(4) { 0 => r.below(64) as u32, 1 => (r.next() as u32) | 0x80000000, _ => r.next() as u32 }).to_le_bytes().to_vec(),
+        Op::U32 => (match r.below(6) { 0 => r.below(64) as u32, 1 => (r.next() as u32) | 0x80000000, 2 => ((r.next() as u32) << 8) | (r.below(20) as u32), 3 => (1u32 << r.below(32)) | (r.below(16) as u32), _ => r.next() as u32 }).to_le_bytes().to_vec(),
         Op::U64 => limb_palette(r, 19).to_le_bytes().to_vec(),
         Op::SCoef { bits } => {
             let m = 1i64 << bits;
             let x = match r.below(4) { 0 => m - r.below(4) as i64, 1 => -m + r.below(4) as i64, _ => (r.next() as i64) % (m + 1) };
             (x as u64).to_le_bytes().to_vec()
+        }
+        Op::U128 => {
+            let x = match r.below(6) {
+                0 => u128::MAX - r.below(64) as u128,
+                1 => (1u128 << r.below(128)).wrapping_sub(1).wrapping_add(r.below(3) as u128),
+                2 => { let k = r.below(120) as u32; (((1u128 << (r.below(70) + 1)) - 1) << k) | (r.below(32) as u128) << k.saturating_sub(5) }
+                3 => ((r.next() as u128) << 64) | (u64::MAX as u128),
+                _ => ((limb_palette(r, 19) as u128) << 64) | limb_palette(r, 19) as u128,
+            };
+            x.to_le_bytes().to_vec()
+        }
+        Op::Scalar32 | Op::Raw(_) => {
+            let n = match op { Op::Raw(n) => *n, _ => 32 };
+            let mut b = Vec::with_capacity(n + 8);
+            let mode = r.below(4);
+            while b.len() < n {
+                let w = match mode { 0 => r.next(), 1 => limb_palette(r, 19), 2 => if r.below(2) == 0 { u64::MAX } else { r.next() | 0xFFFF_FFFF_0000_0000 }, _ => limb_palette(r, 3957) };
+                b.extend_from_slice(&w.to_le_bytes());
+            }
+            b.truncate(n);
+            b
         }
         Op::VarBytes { max, mq } => {
             let n = match r.below(4) { 0 => r.below(*max as u64 + 1) as usize, 1 => 32 * (r.below(*max as u64 / 32 + 1) as usize), _ => (32 * (r.below(*max as u64 / 32 + 1) as usize) + r.below(3) as usize).saturating_sub(1).min(*max) };
